@@ -32,13 +32,23 @@ def check_operator_table(res, f, rid, wrap=None, width='u64', extra_tokens=()):
         facts = cfiwin.guard_facts(f, pb)
         if tok in ('/', '%', '@'):
             nz = any(r[0] == 'ne' and r[1][0] == 'var' and r[1][1] == 'rhs' and r[2] == ('int', 0) for r in facts)
+            if tok == '@':
+                # a power of two is not zero: `!rhs.is_power_of_two() => fail` alone rejects a zero alignment
+                nz = nz or any(r[0] == 'true' and is_call(r[1], 'is_power_of_two') and show(r[1][2]) == 'rhs' for r in facts)
             if not nz or not e['none']:
                 res.violation(rid, '%s|zero|%s' % (rid, tok), f, f.blocks[pb]['t'].get('line'), 'operator `%s` is not guarded by `rhs == 0 => fail`' % tok)
                 continue
         if tok == '@':
             p2 = any(r[0] == 'true' and is_call(r[1], 'is_power_of_two') and show(r[1][2]) == 'rhs' for r in facts)
             inner = pushed[2] if wrap and pushed[0] == 'adt' else pushed
-            mask_ok = inner[0] == 'bin' and inner[3][0] == 'bin' and inner[3][1] == 'BitXor' and show(inner[3][3]) == '(Sub rhs 1)' and strip_casts(inner[3][2]) == ('int', -1)
+            mask = inner[3] if inner[0] == 'bin' and len(inner) == 4 else ()
+            if mask and mask[0] == 'var' and mask[1] != 'rhs':
+                sd = f.single_def(mask[2])      # a mask bound to a name first: one level only, `rhs` itself stays a name
+                mask = f.rvalue_tree(sd['rv']) if sd is not None and sd['kind'] == 'assign' else mask
+            # all ones except the bits below the power of two: !(rhs - 1), spelled with `!` or as all-ones ^ (rhs - 1)
+            mask_ok = inner[0] == 'bin' and bool(mask) and (
+                (mask[0] == 'bin' and mask[1] == 'BitXor' and show(mask[3]) == '(Sub rhs 1)' and strip_casts(mask[2])[0] == 'int' and strip_casts(mask[2])[1] in (-1, 0xffffffff, 0xffffffffffffffff))
+                or (mask[0] == 'un' and mask[1] == 'Not' and show(mask[2]) == '(Sub rhs 1)'))
             if not p2 or not mask_ok:
                 res.violation(rid, '%s|align' % rid, f, f.blocks[pb]['t'].get('line'), '`@` must be lhs & (!0 ^ (rhs - 1)) under rhs.is_power_of_two(): %s' % show(inner))
                 continue
